@@ -68,6 +68,18 @@ Step(ev) ==
            /\ Set(C!SetTuple(P, ev.ix, Y), C!SetTuple(D, ev.ix, Y))
   \/ /\ ev.op = "swap" /\ l > 0 /\ shape # <<>> /\ ev.i \in 0..(Head(shape) - 1) /\ ev.j \in 0..(Head(shape) - 1)
      /\ Set(C!Swap(P, ev.i, ev.j), C!Swap(D, ev.i, ev.j))
+  \* obj[rows] (index list / integer array / boolean mask / slice with a step): a new object
+  \/ /\ ev.op = "getrows" /\ l > 0 /\ shape # <<>> /\ C!DistinctRows(ev.rows, Head(shape))
+     /\ Set(C!GetRows(P, ev.rows), C!GetRows(D, ev.rows))
+  \* obj.set(data) (also through the coordinate setters): the object now holds the given units
+  \/ /\ ev.op = "set" /\ l > 0
+     /\ Len(ev.cell) = C!Size(ev.shape)
+     /\ shape' = ev.shape /\ pc' = ev.cell /\ dc' = ev.cell
+  \* a call the specification does not model (or a call that raised): only the logged projection is known;
+  \* it must be coherent (Post compares the logged derived ids with the primary ids)
+  \/ /\ ev.op = "observe"
+     /\ Len(ev.post.pc) = C!Size(ev.post.shape)
+     /\ shape' = ev.post.shape /\ pc' = ev.post.pc /\ dc' = ev.post.pc
   \/ /\ ev.op = "stack" /\ l > 0
      /\ LET Os == ObjsOf(ev.others)
         IN /\ C!CanStack(<<P>> \o Os)
